@@ -1956,6 +1956,9 @@ public:
 //===---------------------------------------------------------------------===//
 
 const int SP_OFFSET = 1;
+// Words kept free above the initial stack pointer for the link, return value
+// and exit argument slots used by the entry/exit stub.
+const int SP_RESERVED_WORDS = 3;
 const int MAX_ADDRESS = hex::MAX_MEMORY_SIZE_WORDS;
 const int SP_LINK_VALUE_OFFSET = 0;
 const int SP_RETURN_VALUE_OFFSET = 1;
@@ -2804,7 +2807,7 @@ public:
       switch (token) {
       case hexasm::Token::SP_VALUE: {
         // SP value.
-        cb.genInstrData(MAX_ADDRESS - cg.getGlobalsOffset() - 1);
+        cb.genInstrData(MAX_ADDRESS - cg.getGlobalsOffset() - SP_RESERVED_WORDS);
         // Emit data directives for globals, constants and strings.
         for (auto &data : cg.getCodeBuffer().getData()) {
           cb.insertInstr(std::move(data));
@@ -3034,7 +3037,7 @@ public:
     auto stackPointer = dynamic_cast<hexasm::Data*>(directives[1].get())->getValue();
     outs << boost::format("Memory range 0x%x - 0x%x\n") % 0 % MAX_ADDRESS;
     outs << boost::format("Stack pointer initialised to 0x%x\n") % stackPointer;
-    outs << boost::format("Arrays allocated 0x%x - 0x%x\n") % (stackPointer+1) % MAX_ADDRESS;
+    outs << boost::format("Arrays allocated 0x%x - 0x%x\n") % (stackPointer+SP_RESERVED_WORDS) % MAX_ADDRESS;
     outs << "\n";
   }
   void visitPre(Proc &proc) {
